@@ -290,8 +290,95 @@ def run(ctx, only=None):
         ctx.case([kind, name, c.get("vals"), c.get("data"), c.get("extra"), c.get("excess")], nontrivial, sample=c)
         for sig, observed, required, what in oracle(c, classes):
             ctx.fail(sig, c, observed, required, what)
+    if only is None and "TimingPacket" in classes:
+        run_timing(ctx)
+
+
+# ---- whole-message use of a fixed header: the RAOP timing responder -------------------------
+def _timing_run(case):
+    """Drive the real TimingServer.datagram_received with a recording transport and a fixed clock.
+    -> list of (bytes, addr) sent, or ("err", class)"""
+    from pyatv.protocols.raop import protocols as raop_protocols, timing
+
+    sent = []
+
+    class Transport:
+        def sendto(self, data, addr=None):
+            sent.append((bytes(data), addr))
+
+    srv = raop_protocols.TimingServer()
+    srv.connection_made(Transport())
+    orig = timing.ntp_now
+    timing.ntp_now = lambda: case["now"]
+    try:
+        srv.datagram_received(bytes.fromhex(case["data"]), ("10.0.0.9", 6002))
+    except Exception as e:
+        return ("err", type(e).__name__)
+    finally:
+        timing.ntp_now = orig
+    return ("ok", sent)
+
+
+def _ref_fields(name, data):
+    out, pos = [], 0
+    for w in REF[name]:
+        out.append(int.from_bytes(data[pos:pos + w], "big"))
+        pos += w
+    return out
+
+
+def oracle_timing(case):
+    req = _ref_fields("TimingPacket", bytes.fromhex(case["data"]))
+    r = _timing_run(case)
+    if r[0] != "ok" or len(r[1]) != 1 or r[1][0][1] != ("10.0.0.9", 6002) or len(r[1][0][0]) != 32:
+        return [("headers:timing:no-reply", repr(r)[:200], "one 32-byte timing reply to the sender",
+                 "a well-formed timing request was not answered with a timing packet")]
+    resp = _ref_fields("TimingPacket", r[1][0][0])
+    now = [case["now"] >> 32, case["now"] & 0xFFFFFFFF]
+    want = {"proto": req[0], "reftime": req[8:10], "recvtime": now, "sendtime": now}
+    got = {"proto": resp[0], "reftime": resp[4:6], "recvtime": resp[6:8], "sendtime": resp[8:10]}
+    if got != want:
+        return [("headers:timing:reply-fields", repr(got), repr(want),
+                 "the timing reply must carry the request's send time as reference time and the clock as receive/send time "
+                 "(fields read and written per the 32-byte timing packet layout)")]
+    return []
+
+
+def run_timing(ctx, only=None):
+    rng = ctx.rng.fork("headers-timing")
+    cases = only
+    if cases is None:
+        cases = []
+        for _ in range(ctx.scale(60, 1500)):
+            vals = [rng.choice([0x80, 0x90, rng.randrange(256)]), rng.choice([0xD2, 0x52, rng.randrange(256)]), rng.choice([7, 0, 65535, rng.randrange(65536)]), 0]
+            vals += [rng.choice([0, 1, 2 ** 31, 2 ** 32 - 1, rng.getrandbits(32)]) for _ in range(6)]
+            now = rng.choice([rng.getrandbits(64), (0x83AA7E80 + rng.getrandbits(30)) << 32 | rng.getrandbits(32), 2 ** 64 - 1, 2 ** 32])
+            cases.append({"kind": "timing", "cls": "TimingPacket", "data": ref_enc("TimingPacket", vals).hex(), "now": now})
+    lines = []
+    for c in cases:
+        req = _ref_fields("TimingPacket", bytes.fromhex(c["data"]))
+        now = [c["now"] >> 32, c["now"] & 0xFFFFFFFF]
+        lines.append("dec TimingPacket " + c["data"])
+        lines.append("enc TimingPacket " + _wire([req[0], 0x53 | 0x80, 7, 0, req[8], req[9]] + now + now))
+    answers = iter(ctx.lean(lines, driver=DRIVER))
+    for c in cases:
+        m_req, m_resp = next(answers), next(answers)
+        req = _ref_fields("TimingPacket", bytes.fromhex(c["data"]))
+        if m_req != ("ok " + _wire(req)):
+            ctx.disagree(c, "ok " + _wire(req), m_req, where="headers timing request (reference decode vs model)")
+        r = _timing_run(c)
+        impl = _hex(r[1][0][0]) if r[0] == "ok" and len(r[1]) == 1 else "err:" + repr(r)[:80]
+        if impl != m_resp:
+            ctx.disagree(c, impl, m_resp, where="headers TimingServer reply")
+        ctx.validated(2)
+        ctx.note("headers:kind:timing")
+        ctx.case(["timing", c["data"], c["now"]], True, sample=c)
+        for sig, observed, required, what in oracle_timing(c):
+            ctx.fail(sig, c, observed, required, what)
 
 
 def replay(ctx, failure):
     case = {k: v for k, v in failure["case"].items() if not k.startswith("_")}
+    if case.get("kind") == "timing":
+        return bool(oracle_timing(case))
     return bool(oracle(case))
